@@ -252,6 +252,17 @@ def cap_cases(tier):
     cases.append(bomb_case(10, 16, 2 ** 20))      # bytes: 2^60
     cases.append(bomb_case(12, 16, 2 ** 16 - 1))
     cases.append(bomb_case(10, 10, 6))
+
+    def wide_case(n):
+        def f(rng):
+            # two levels of n entries each: n*n files, and two consecutive tree objects of > 1 MiB in the object stream
+            leaf = G.Tree([G.Entry(G.FILE, b"f%05d" % i, G.Blob(b"x")) for i in range(n)], presorted=True)
+            root = G.Tree([G.Entry(G.TREE, b"d%05d" % i, leaf) for i in range(n)], presorted=True)
+            m = G.Model()
+            m.refs["refs/heads/main"] = G.Commit(root, [])
+            return m
+        return ("wide bomb %d x %d" % (n, n), f)
+    cases.append(wide_case(65536))
     if tier != "quick":
         for d in (6, 10, 11, 13, 20, 33):
             cases.append(bomb_case(d, 16, 1))
@@ -407,6 +418,9 @@ def run_cap_case(arg):
             rules = [{"sig": sg, "ord": -1, "mode": "delay", "chunk": rng.choice([1, 40, 55, 60, 110, 120, 170, 4096]),
                       "chunk_ms": rng.choice([1, 3, 8]), "pre_ms": rng.choice([0, 20]), "max_ms": 300}
                      for sg in ("cat-file --batch-check", "rev-list") if rng.random() < 0.8]
+            if rng.random() < 0.6:
+                # the second pass delivers all its objects in one piece at the end
+                rules.append({"sig": "cat-file --batch", "ord": -1, "mode": "burst"})
             plan = R.make_plan(pdir, rules)
             rp = R.sizer(binary, gitdir, ["--json", "--no-progress"], shimdir=shimdir, plan=plan, tmpdir=d, timeout=300, rlimit_cpu=60,
                          env={"GOMAXPROCS": rng.choice(["1", "2", "4", "16"])})
